@@ -469,3 +469,47 @@ def _confusion(check: Check):
   raises = any(isinstance(n.ast, ast.Raise) for n in ff.cfg.nodes if n.kind == 'stmt')
   check.ob('R-ORDER.confusion', ev, 'num_classes != len(pred) -> ValueError', raises,
            'a prediction vector of the wrong length is rejected instead of being silently mis-indexed', nontrivial=False)
+  # the guard of that raise is tabulated over (num_classes, len(pred)) in 1..4 x 1..4: it rejects exactly the unequal pairs (a
+  # one-sided test lets a longer prediction through, and classes beyond num_classes are silently dropped by the out-of-bounds .at[].set)
+  from fjsa.flow import guards_of
+  from fjsa.props.c20 import _eval_guard
+  rs = [n for n in ff.cfg.nodes if n.kind == 'stmt' and isinstance(n.ast, ast.Raise)]
+  if len(rs) == 1:
+    gs = guards_of(ff, rs[0].ast)
+    atoms = {}
+    for t, _ in gs:
+      for x in ast.walk(t):
+        if isinstance(x, ast.Attribute) and x.attr == 'num_classes':
+          atoms[txt(x)] = 'a'
+        elif isinstance(x, ast.Call) and ff.ext(x.func) == 'builtins.len':
+          atoms[txt(x)] = 'b'
+        elif isinstance(x, ast.Subscript) and isinstance(x.value, ast.Attribute) and x.value.attr == 'shape':
+          atoms[txt(x)] = 'b'
+    verdict = None
+    if set(atoms.values()) == {'a', 'b'} and gs:
+      verdict = True
+      for a in range(1, 5):
+        for b in range(1, 5):
+          env = {k: (a if v == 'a' else b) for k, v in atoms.items()}
+          vals = [_eval_guard(_subst(t, env), {}) for t, _ in gs]
+          if any(v is None for v in vals):
+            verdict = None
+            break
+          raised = all(v == pol for v, (_, pol) in zip(vals, gs))
+          if raised != (a != b):
+            verdict = False
+        if verdict is None:
+          break
+    check.ob('R-ERR.classes', ev, 'raise iff num_classes != len(pred)', verdict,
+             'the length check rejects every prediction whose length differs from num_classes, in either direction', node=rs[0].ast)
+
+
+def _subst(t: ast.AST, env):
+  """Copy of `t` with every sub-expression whose text is a key of env replaced by the constant."""
+  import copy
+  class R(ast.NodeTransformer):
+    def visit(self, node):
+      if isinstance(node, ast.expr) and txt(node) in env:
+        return ast.copy_location(ast.Constant(env[txt(node)]), node)
+      return self.generic_visit(node)
+  return R().visit(copy.deepcopy(t))
